@@ -32,7 +32,7 @@ ASSUMPTIONS = ["sub-fibers are never attached by hand (append / __setitem__ of a
                "Tensor.updatePayloads is used with leaf->leaf functions",
                "histories continue on a transform result only while it keeps integer coordinates"]
 
-MUT = ["ref", "ref", "ref", "populate", "populate", "denseref", "assign", "clear", "positionRef"]
+MUT = ["ref", "ref", "ref", "populate", "populate", "denseref", "assign", "clear", "positionRef", "fiber_arith"]
 TRANS = ["setRoot", "fromFiber_owned", "deepcopy", "splitUniform", "splitEqual", "splitNonUniform", "splitUnEqual", "swizzle", "swap",
          "flatten_unflatten", "merge", "t_updateCoords", "t_updatePayloads", "yaml"]
 READ = ["eq", "union", "uncompress", "print", "format"]
@@ -373,7 +373,7 @@ PARTS = [Part("history", cases(), check, n_quick=3000, n_thorough=15000)]
 def coverage_warnings(rec):
     n = max(1, rec.evaluations)
     out = []
-    for k, floor in (("history:populate-removal", 0.025), ("history:chain-insert", 0.05), ("history:mutated-transform-result", 0.2)):
+    for k, floor in (("history:populate-removal", 0.025), ("history:chain-insert", 0.035), ("history:mutated-transform-result", 0.15)):
         if rec.classes.get(k, 0) / n < floor:
             out.append(f"{k} only {rec.classes.get(k, 0)}/{n}")
     return out
